@@ -64,6 +64,8 @@ func TimeFromProto(proto *dtpb.Time) Time {
 	var l layout
 	switch proto.Precision {
 	case dtpb.Time_MICROSECOND:
+		// System Times hold milliseconds at most.
+		t = t.Truncate(time.Millisecond)
 		fallthrough
 	case dtpb.Time_MILLISECOND:
 		l = millisecondLayout
